@@ -99,6 +99,9 @@ def _convertCFFToCFF2(cff, otFont):
         )
         try:
             extractor.execute(cs)
+            if not extractor.gotWidth and extractor.operandStack:
+                # the endchar that would have consumed the width sat in a subroutine truncated above
+                raise nominalWidthXError
         except _NominalWidthUsedError:
             # Program has explicit width. We want to drop it, but can't
             # just pop the first number since it may be a subroutine call.
